@@ -11,11 +11,21 @@ DAY = 86_400_000_000
 T0 = 1546300800 * 1_000_000  # 2019-01-01
 
 
-def _contracts():
+def _contracts(ctor=None):
     from tradingenv.contracts import ES, ETF, FutureChain, Index, Rate, Stock, ZN
 
     chain = FutureChain(ES, "2019-03", "2019-12")
     zchain = FutureChain(ZN, "2019-03", "2020-03", month=1)
+    if ctor:
+        # the alternative constructor: the same contracts handed over as a list, in the given (not chronological) order
+        import random
+
+        rnd = random.Random(ctor)
+        ec, zc = list(chain.contracts), list(zchain.contracts)
+        rnd.shuffle(ec)
+        zc.reverse()
+        chain = FutureChain(contracts=ec)
+        zchain = FutureChain(contracts=zc, month=1)
     pool = {
         "AAA": ETF("AAA"), "BBB": Index("BBB"), "CCC": Stock("CCC"), "RATE": Rate("RATE"),
         "ESH19": ES(2019, 3), "ESM19": ES(2019, 6), "ESU19": ES(2019, 9),
@@ -91,7 +101,7 @@ class C14(Prop):
                     ops.append([what, qk, rng.choice([-1, 0, 1])])
                 else:
                     ops.append([what, qk])
-        return dict(ops=ops)
+        return dict(ops=ops, chain_ctor=rng.randint(1, 10**6) if rng.random() < 0.3 else None)
 
     def gen_chain_first(self, rng):
         """The book of a lead contract is first touched through the *chain* key; the chain then rolls; the old
@@ -125,7 +135,7 @@ class C14(Prop):
             else:
                 what = rng.choice(["book", "book", "mid", "acq", "liq"])
                 ops.append([what, k, rng.choice([-1, 1])] if what in ("acq", "liq") else [what, k])
-        return dict(ops=ops)
+        return dict(ops=ops, chain_ctor=rng.randint(1, 10**6) if rng.random() < 0.3 else None)
 
     def mutate(self, case, rng):
         ops = list(case["ops"])
@@ -144,7 +154,9 @@ class C14(Prop):
         from tradingenv.exchange import Exchange
 
         r = ImplRun()
-        pool = _contracts()
+        pool = _contracts(case.get("chain_ctor"))
+        if case.get("chain_ctor"):
+            r.tags.add("chain-from-list")
         saved_now = AbstractContract.now
         ex = Exchange()
         # chains declared to the model with their listing
